@@ -2,6 +2,7 @@ package oracle
 
 import (
 	"fmt"
+	"strconv"
 	"strings"
 
 	"github.com/hashicorp/hcl-lang/lang"
@@ -110,7 +111,10 @@ func (o *C12) Check(x *h.Exec, ev *h.Event) {
 										return
 									}
 								}
-								if !strings.Contains(hd.Content.Value, n.Item.Block.Labels[li]) {
+								// (shown as written or escaped the way a quoted label is)
+								lb := n.Item.Block.Labels[li]
+								esc := strings.Trim(strconv.Quote(lb), "\"")
+								if !strings.Contains(hd.Content.Value, lb) && !strings.Contains(hd.Content.Value, esc) {
 									x.Report("label-missing", "hover", "", fmt.Sprintf("hover on label %q does not name it: %q", n.Item.Block.Labels[li], short(hd.Content.Value, 120)), &q)
 									return
 								}
@@ -157,6 +161,19 @@ func (o *C13) Check(x *h.Exec, ev *h.Event) {
 			if len(toks) > 0 {
 				x.Cov.Probe("token_lists")
 			}
+			// a request cancelled while it runs either fails or is complete: it
+			// never returns part of the tokens as if they were all
+			if r.Err == nil && len(toks) > 0 {
+				for _, k := range []int{1, 2, 5} {
+					qc := q
+					qc.CancelAfter = k
+					rc := x.Run(qc)
+					if rc.Panic == nil && rc.Err == nil && rc.Canon() != r.Canon() {
+						x.Report("partial-on-cancel", "tokens", "", fmt.Sprintf("%s: cancelled at the %d. poll of its context the request returns no error and other tokens than uncancelled: %s", f.Name, k, firstDiff(r.Canon(), rc.Canon())), &qc)
+						return
+					}
+				}
+			}
 			for i, t := range toks {
 				if !supported[t.Type] {
 					x.Report("unadvertised-type", "tokens", string(t.Type), fmt.Sprintf("token %d has type %q", i, t.Type), &q)
@@ -174,6 +191,11 @@ func (o *C13) Check(x *h.Exec, ev *h.Event) {
 					pr := toks[i-1]
 					if t.Range.Start.Byte < pr.Range.Start.Byte {
 						x.Report("unsorted", "tokens", string(pr.Type)+"/"+string(t.Type), fmt.Sprintf("token %d (%s at %d) precedes token %d (%s at %d)", i-1, pr.Type, pr.Range.Start.Byte, i, t.Type, t.Range.Start.Byte), &q)
+						return
+					}
+					// the same in line/column terms, which is what a client encodes
+					if t.Range.Start.Line < pr.Range.End.Line || (t.Range.Start.Line == pr.Range.End.Line && t.Range.Start.Column < pr.Range.End.Column) {
+						x.Report("overlap-line-column", "tokens", string(pr.Type)+"/"+string(t.Type), fmt.Sprintf("token %d %s ends at %d:%d, token %d %s starts at %d:%d (bytes %d..%d / %d..%d)", i-1, pr.Type, pr.Range.End.Line, pr.Range.End.Column, i, t.Type, t.Range.Start.Line, t.Range.Start.Column, pr.Range.Start.Byte, pr.Range.End.Byte, t.Range.Start.Byte, t.Range.End.Byte), &q)
 						return
 					}
 					if t.Range.Start.Byte < pr.Range.End.Byte {
